@@ -208,6 +208,9 @@ func Build(w *WF, rt *Runtime) *sp.Workflow {
 			if n.Prepend != "" {
 				p.Prepend = n.Prepend
 			}
+			if n.NoSpawn {
+				p.Spawn = false
+			}
 			if n.Custom != 0 {
 				p.CustomExecute = customFunc(n)
 			}
